@@ -4,10 +4,11 @@ import Chihaya.Driver.DVarInterval
 import Chihaya.Driver.DConfig
 import Chihaya.Driver.DApproval
 import Chihaya.Driver.DHttpParse
+import Chihaya.Driver.DUdp
 open Proto
 
 def dispatch (l : Line) : String :=
-  let hs : List (Line → Option (Except String String)) := [DBencode.handle, DVarInterval.handle', DConfig.handle, DApproval.handle, DHttpParse.handle]
+  let hs : List (Line → Option (Except String String)) := [DBencode.handle, DVarInterval.handle', DConfig.handle, DApproval.handle, DHttpParse.handle, DUdp.handle]
   let r : Option (Except String String) := hs.findSome? (fun h => h l)
   match r with
   | some (Except.ok s) => s
